@@ -11,6 +11,7 @@ CHECKS = {
  "C05": ("proof", "branch records produced by the real analyze() vs the PC reached by the real IL evaluation, at a symbolic 20-bit address, all operands/flags/stack symbolic; CALL/RET, CALLF/RETF, IR/RETI inverse laws as z3 lemmas over the instruction contracts", "near CALL/RET law needs caller and RET on the same 64 KiB page (stated and shown necessary); " + TB, "5 C05"),
  "C07": ("proof", "2-safety contract on Emulator.execute_instruction per opcode: fresh emulator vs emulator with an execution history, TEMP0-13 arbitrary and different, same architectural inputs => same outputs; module globals unchanged. Python half only", "hidden state other than TEMPs is covered through three concrete history instructions; Rust statics/thread-locals not decided; " + TB, "5 C07"),
  "C08": ("proof", "contracts on Registers.get/set (+by-name, flag API) for every register name, arbitrary prior file and arbitrary 64-bit written value, the algebraic law as a lemma over the contract, snapshot round trip and register blob layout; Python half only", "Rust LlamaState/snapshot.rs not decided (constants compared under C17); " + TB, "5 C08"),
+ "C09": ("exploration", "bounded contract check of Assembler.assemble over the structural enumeration of accepted encodings (opcode x prefix x every selector/mode byte, operand values from a palette, every named internal register): assemble(text) succeeds, same text, same lifted IL, second round fixpoint. On the unchanged tree several whole classes fail; each root cause is one known finding and anything outside them is reported", "strings and the lark parser cannot be carried symbolically; operand values are sampled, structure is complete; " + TB, "5 C09 / 10.5"),
  "C10": ("exploration", "bounded contract check of Assembler.assemble on generated programs against an independent layout calculator (bytes at addresses, symbol table, determinism, statelessness); the two lemmas O-size (pass-one size == pass-two bytes for every symbol value) and O-near (page rule) are proved by SYMX and reported under proved_lemmas", "strings and the lark parser cannot be carried symbolically: the contract on assemble() is bounded (generated programs, seeded); " + TB, "5 C10"),
  "C11": ("proof", "memory laws (read-back, read-only windows, frame/no-alias, alias agreement, little-endian composition) on the real PCE500Memory/MemoryBus for symbolic 32-bit addresses under 12 configurations incl. overlays at symbolic addresses; Python half only", "Rust MemoryImage/RuntimeBus not decided; device windows excluded; " + TB, "5 C11"),
  "C12": ("proof", "only the contract-sized clauses: delivery gate (both directions), 5-byte frame, master enable cleared, nothing else written, masked request kept, HALT wake-up on one real PCE500Emulator.step over symbolic IMR/ISR/pending/F/S; IR/RETI inverse as a lemma over the instruction contracts", "the schedule/liveness clauses (prompt delivery over several steps, HALT/OFF timing, all interleavings) and the Rust runtime are NOT decided; " + TB, "5 C12"),
@@ -25,7 +26,7 @@ NA = {
  "C18": "async Rust scheduler (futures, wakers, thread-locals); no Rust verifier and the property quantifies over schedules",
 }
 PENDING = {
- "C09": "text->bytes goes through a lark parser and string-valued operands; check not built yet",
+
 
 
 }
